@@ -227,10 +227,9 @@ fn main() {
         "threads" => {
             // --reference: every call alone; --histories FILE: forced hand-off; --race N: free-running in this fresh process
             let mut evs: Vec<Value> = vec![];
-            if args.iter().any(|a| a == "--reference") {
-                for (c, d) in threads::reference().into_iter().enumerate() {
-                    evs.push(json!({"ev": "Ref", "scen": 0, "call": c, "digest": d}));
-                }
+            if let Some(c) = arg(&args, "--reference") {
+                let c: usize = c.parse().unwrap();
+                evs.push(json!({"ev": "Ref", "scen": 0, "call": c, "digest": threads::reference(c)}));
             }
             if let Some(path) = arg(&args, "--histories") {
                 let lines: Vec<Value> = std::fs::read_to_string(path).unwrap().lines().filter(|l| !l.trim().is_empty()).map(|l| serde_json::from_str(l).unwrap()).collect();
